@@ -29,7 +29,17 @@ def audit(lines):
                 return out
             reqs.append((' '.join(['a_explog', l.grp, p] + l.ins + l.outs), dict(base, judge=judge, what='exp(log(g)) != g')))
         elif l.op == 'logexp':
-            reqs.append((' '.join(['a_vec', l.grp, p] + l.ins + l.outs), dict(base, what='log(exp(a)) != a')))
+            # the claim is for rotation parts of norm below pi (judged on the actual scalar value of the
+            # input: float(pi - 1e-9) is above pi), with the relaxed tolerance within BAND of pi
+            try:
+                rn = [th for _, th in rot_norms(l.grp, l.in_vals())]
+            except Exception:
+                rn = []
+            if any(th >= math.pi for th in rn):
+                continue
+            near = any(abs(math.pi - th) < BAND[l.prec] for th in rn)
+            reqs.append((' '.join(['a_vec', l.grp, p] + l.ins + l.outs),
+                         dict(base, tol=TOL_NEAR_PI[l.prec] if near else TOL[l.prec], what='log(exp(a)) != a')))
     return reqs
 
 
